@@ -206,7 +206,12 @@ VArb(ev) ==
       seed == HexToBytes(ev.seed)
       degenerate == ~IsEd(g) /\ LET h == IG_ArbH(g, seed) IN NIsZero(h) \/ IG_ArbFromH(g, h) = NLit(1)
       e    == GArbElem(g, seed)
-  IN IF degenerate THEN PBad("F7: arbitrary_element on a degenerate seed (HKDF output 0 mod p or in the kernel of the cofactor map)", "")
+  IN IF degenerate
+     THEN \* the published construction itself yields 0 or the identity here (finding F7).  If the code nevertheless
+          \* returns a non-identity member of the subgroup the finding is not reproduced; the property does not say which.
+          IF ev.out.t = "elem" /\ GDec(g, HexToBytes(ev.out.enc)).ok /\ GDec(g, HexToBytes(ev.out.enc)).e # GIdentity(g)
+          THEN PGood
+          ELSE PBad("F7: arbitrary_element on a degenerate seed (HKDF output 0 mod p or in the kernel of the cofactor map)", "")
      ELSE IF ev.out.t # "elem" THEN PBad("C14: arbitrary_element raised", BytesToHex(GEnc(g, e)))
      ELSE IF HexToBytes(ev.out.enc) # GEnc(g, e) THEN PBad("C14: arbitrary_element is not the published construction", BytesToHex(GEnc(g, e)))
      ELSE IF ~(GIsMember(g, e) /\ e # GIdentity(g)) THEN PBad("C14: the published construction leaves the subgroup", "")
